@@ -424,6 +424,82 @@ let faults_case (line : string) : string =
       "src=" ^ ident_of_bytes (src_bytes src) ]
 
 
+(* ---------- read-writer (C12) ---------- *)
+(* case line: <id> <var> <B> <fail> <writes> <sched>
+     var    o = original code | f = repaired | l = loop only | c = Close under the mutex only
+     B      read-buffer size of the storing side
+     fail   - | k   (the storing side fails at its k-th Read return, 0-based)
+     writes - | n1,n2,...   (sizes; byte j of the whole stream is 'a' + j mod 26)
+     sched  - | string over W,R (lower case = same thread, the controller expects it to block)
+   output: <id> <ev>* ; end=<final|stuck|open> close=<ok|err|none> w=<o/e per write|-> pub=<hex|none> stored=<hex|-> *)
+let rw_params_of (var : string) (b : string) (fl : string) : params0 =
+  let (lp, lk) = match var with
+    | "o" -> (false, false) | "f" -> (true, true) | "l" -> (true, false) | "c" -> (false, true)
+    | _ -> failwith ("bad rw variant " ^ var) in
+  rw_params lp lk (nat_of_int (int_of_string b)) (if fl = "-" then None else Some (nat_of_int (int_of_string fl)))
+let rw_sizes (w : string) : nat list =
+  if w = "-" then [] else List.map (fun x -> nat_of_int (int_of_string x)) (String.split_on_char ',' w)
+let rw_tid_of_char (c : char) : tid =
+  match c with 'W' | 'w' -> W | 'R' | 'r' -> R | _ -> failwith "bad thread letter"
+let rw_sched (s : string) : tid list =
+  if s = "-" then [] else List.init (String.length s) (fun i -> rw_tid_of_char s.[i])
+let string_of_tid = function W -> "W" | R -> "R"
+let string_of_point = function
+  | PWriteEnter -> "rw.write.enter" | PWriteBeforeSignal -> "rw.write.beforeSignal"
+  | PCloseEnter -> "rw.close.enter" | PCloseAfterStore -> "rw.close.afterStore"
+  | PCloseBeforeWait -> "rw.close.beforeWait" | PReadEnter -> "rw.read.enter"
+  | PReadBeforeWait -> "rw.read.beforeWait" | PReadAfterWake -> "rw.read.afterWake"
+  | PSinkEof -> "sink.eof" | PSinkFail -> "sink.fail"
+let string_of_ev ((t, o) : tid * obs) : string =
+  match o with
+  | OAt p -> string_of_tid t ^ "@" ^ string_of_point p
+  | OBlocked -> string_of_tid t ^ ":blocked"
+  | OFinished -> string_of_tid t ^ ":done"
+let hex_plain (l : n list) : string =
+  String.concat "" (List.map (fun b -> Printf.sprintf "%02x" (Int64.to_int (i64_of_n b))) l)
+
+let rw_case (line : string) : string =
+  match split_ws line with
+  | [id; var; b; fl; w; sc] ->
+    let p = rw_params_of var b fl in
+    let s0 = rw_init (rw_writes (rw_sizes w)) in
+    let (evs, s) = rw_trace p (rw_sched sc) s0 [] in
+    let (cr, (wr, (pub, st))) = rw_outcome s in
+    let fin = if rw_final s then "final" else if rw_stuck p s then "stuck" else "open" in
+    Printf.sprintf "%s %s ; end=%s close=%s w=%s pub=%s stored=%s" id
+      (String.concat " " (List.map string_of_ev (rw_initial_obs s0 @ evs))) fin
+      (match cr with Some true -> "ok" | Some false -> "err" | None -> "none")
+      (if wr = [] then "-" else String.concat "" (List.map (fun x -> if x then "o" else "e") wr))
+      (match pub with Some c -> hex_plain c | None -> "none")
+      (if st = [] then "-" else hex_plain st)
+  | _ -> failwith ("bad rw case: " ^ line)
+
+(* enumeration line: <id> <var> <B> <fail> <writes> <all|eager> <probes>
+   prints one rw case line per complete schedule: <id>.<n> <var> <B> <fail> <writes> <sched> *)
+let rw_enum_case (line : string) : string =
+  match split_ws line with
+  | [id; var; b; fl; w; mode; probes] ->
+    let p = rw_params_of var b fl in
+    let ws = rw_writes (rw_sizes w) in
+    let l = rw_enum p (mode = "eager") (rw_bound ws) (nat_of_int (int_of_string probes)) (rw_init ws) [] in
+    String.concat "\n" (List.mapi (fun i sc ->
+      Printf.sprintf "%s.%d %s %s %s %s %s" id i var b fl w
+        (if sc = [] then "-" else String.concat "" (List.map string_of_tid sc))) l)
+  | _ -> failwith ("bad rw-enum case: " ^ line)
+
+(* stream writer: <id> <chunkSize> <writes>  ->  <id> <chunk lengths|-> ok *)
+let sw_case (line : string) : string =
+  match split_ws line with
+  | [id; cs; w] ->
+    let ws = rw_writes (rw_sizes w) in
+    let cks = sw_chunks (nat_of_int (int_of_string cs)) ws in
+    let lens = List.map (fun c -> string_of_int (List.length c)) cks in
+    Printf.sprintf "%s %s %s" id (if lens = [] then "-" else String.concat "," lens)
+      (if List.concat cks = List.concat ws then "ok" else "BAD")
+  | _ -> failwith ("bad sw case: " ^ line)
+
+
+
 let () =
   let cmd = Sys.argv.(1) in
   let lines = read_lines Sys.argv.(2) in
@@ -456,6 +532,9 @@ let () =
     | "faults" -> faults_case
     | "config" -> config_case
     | "errmap" -> errmap_case
+    | "rw" -> rw_case
+    | "rw-enum" -> rw_enum_case
+    | "sw" -> sw_case
     | _ -> failwith ("unknown command " ^ cmd)
   in
   List.iter (fun l -> if String.trim l <> "" && l.[0] <> '#' then print_endline (f l)) lines
